@@ -36,7 +36,19 @@ impl std::fmt::Display for SimErr {
         write!(f, "simerr(req={},serial={},kind={})", self.req, self.serial, self.kind)
     }
 }
-impl std::error::Error for SimErr {}
+/// kind 7: an application-level error that was *caused by* a connection failure: its `source()`
+/// is an error of kind 0. A predicate is asked about the error itself, not about its causes.
+pub const CAUSED_BY_CONN_KIND: u8 = 7;
+static CONN_CAUSE: SimErr = SimErr { req: u32::MAX, serial: 0, kind: 0, svc: 0 };
+impl std::error::Error for SimErr {
+    fn source(&self) -> Option<&(dyn std::error::Error + 'static)> {
+        if self.kind == CAUSED_BY_CONN_KIND {
+            Some(&CONN_CAUSE)
+        } else {
+            None
+        }
+    }
+}
 
 pub const READY_ERR_KIND: u8 = 250;
 
